@@ -73,6 +73,7 @@ struct Shared {
     cur: Mutex<Ans>,
     log: Mutex<Vec<Ev>>,
     init_err: Mutex<Option<i32>>, // Some(e) while a Vfs::init step runs: every backend answers e
+    yield_once: std::sync::atomic::AtomicBool, // async backend methods return Pending once before answering
 }
 
 struct Backend {
@@ -377,6 +378,163 @@ impl FsCacheReqHandler for NullCache {
     }
 }
 
+
+// ------------------------------------------------------------------ the async twin (feature async-io)
+// The scripted backends answer the async trait methods exactly like the sync ones, but log them with an "a:" tag, so the
+// call log shows WHICH trait method the Vfs called.
+#[cfg(feature = "async-io")]
+mod asyncfs {
+    use super::*;
+    use async_trait::async_trait;
+    use fuse_backend_rs::api::filesystem::{AsyncFileSystem, AsyncZeroCopyReader, AsyncZeroCopyWriter};
+    use fuse_backend_rs::file_traits::AsyncFileReadWriteVolatile;
+    use std::sync::atomic::Ordering;
+
+    // a future that is Pending exactly once (wakes itself): a real suspension at the await point inside the Vfs method
+    pub struct YieldOnce(pub bool);
+    impl std::future::Future for YieldOnce {
+        type Output = ();
+        fn poll(mut self: std::pin::Pin<&mut Self>, cx: &mut std::task::Context<'_>) -> std::task::Poll<()> {
+            if self.0 {
+                std::task::Poll::Ready(())
+            } else {
+                self.0 = true;
+                cx.waker().wake_by_ref();
+                std::task::Poll::Pending
+            }
+        }
+    }
+    pub fn block_on<F: std::future::Future>(f: F) -> F::Output {
+        use std::task::{Context as TCx, Poll, RawWaker, RawWakerVTable, Waker};
+        fn noop(_: *const ()) {}
+        fn clone(_: *const ()) -> RawWaker {
+            RawWaker::new(std::ptr::null(), &VT)
+        }
+        static VT: RawWakerVTable = RawWakerVTable::new(clone, noop, noop, noop);
+        let waker = unsafe { Waker::from_raw(RawWaker::new(std::ptr::null(), &VT)) };
+        let mut cx = TCx::from_waker(&waker);
+        let mut f = Box::pin(f);
+        let mut spins = 0u32;
+        loop {
+            match f.as_mut().poll(&mut cx) {
+                Poll::Ready(v) => return v,
+                Poll::Pending => {
+                    spins += 1;
+                    if spins > 1000 {
+                        panic!("future never became ready");
+                    }
+                }
+            }
+        }
+    }
+
+    #[async_trait(?Send)]
+    impl AsyncZeroCopyReader for NullIo {
+        async fn async_read_to(&mut self, _f: Arc<dyn AsyncFileReadWriteVolatile>, _c: usize, _o: u64) -> io::Result<usize> {
+            Ok(0)
+        }
+    }
+    #[async_trait(?Send)]
+    impl AsyncZeroCopyWriter for NullIo {
+        async fn async_write_from(&mut self, _f: Arc<dyn AsyncFileReadWriteVolatile>, _c: usize, _o: u64) -> io::Result<usize> {
+            Ok(0)
+        }
+    }
+
+    impl Backend {
+        async fn pause(&self) {
+            if self.sh.yield_once.load(Ordering::SeqCst) {
+                YieldOnce(false).await;
+            }
+        }
+    }
+
+    #[async_trait]
+    impl AsyncFileSystem for Backend {
+        async fn async_lookup(&self, ctx: &Context, parent: u64, _name: &CStr) -> io::Result<Entry> {
+            self.pause().await;
+            self.entry("a:lookup", ctx, parent, 0)
+        }
+        async fn async_getattr(&self, ctx: &Context, inode: u64, _handle: Option<u64>) -> io::Result<(stat64, Duration)> {
+            self.pause().await;
+            self.ev("a:getattr", Some(ctx), inode, 0, 0, 0);
+            let a = self.ans();
+            if a.err != 0 {
+                return Err(oserr(a.err));
+            }
+            Ok((mk_stat(a.attr.ino, a.attr.uid, a.attr.gid, a.attr.tag), Duration::from_secs(5)))
+        }
+        async fn async_setattr(&self, ctx: &Context, inode: u64, attr: stat64, _handle: Option<u64>, _valid: SetattrValid) -> io::Result<(stat64, Duration)> {
+            self.pause().await;
+            self.ev("a:setattr", Some(ctx), inode, 0, attr.st_uid, attr.st_gid);
+            let a = self.ans();
+            if a.err != 0 {
+                return Err(oserr(a.err));
+            }
+            Ok((mk_stat(a.attr.ino, a.attr.uid, a.attr.gid, a.attr.tag), Duration::from_secs(5)))
+        }
+        async fn async_open(&self, ctx: &Context, inode: u64, _flags: u32, _fuse_flags: u32) -> io::Result<(Option<u64>, OpenOptions)> {
+            self.pause().await;
+            self.unit("a:open", ctx, inode).map(|t| (Some(t), OpenOptions::empty()))
+        }
+        async fn async_create(&self, ctx: &Context, parent: u64, _name: &CStr, _args: CreateIn) -> io::Result<(Entry, Option<u64>, OpenOptions)> {
+            self.pause().await;
+            let a = self.ans();
+            self.entry("a:create", ctx, parent, 0).map(|e| (e, Some(a.tag), OpenOptions::empty()))
+        }
+        async fn async_read(&self, ctx: &Context, inode: u64, _handle: u64, _w: &mut (dyn AsyncZeroCopyWriter + Send), _size: u32, _offset: u64, _lock_owner: Option<u64>, _flags: u32) -> io::Result<usize> {
+            self.pause().await;
+            self.unit("a:read", ctx, inode).map(|t| t as usize)
+        }
+        async fn async_write(&self, ctx: &Context, inode: u64, _handle: u64, _r: &mut (dyn AsyncZeroCopyReader + Send), _size: u32, _offset: u64, _lock_owner: Option<u64>, _delayed_write: bool, _flags: u32, _fuse_flags: u32) -> io::Result<usize> {
+            self.pause().await;
+            self.unit("a:write", ctx, inode).map(|t| t as usize)
+        }
+        async fn async_fsync(&self, ctx: &Context, inode: u64, _datasync: bool, _handle: u64) -> io::Result<()> {
+            self.pause().await;
+            self.unit("a:fsync", ctx, inode).map(|_| ())
+        }
+        async fn async_fallocate(&self, ctx: &Context, inode: u64, _handle: u64, _mode: u32, _offset: u64, _length: u64) -> io::Result<()> {
+            self.pause().await;
+            self.unit("a:fallocate", ctx, inode).map(|_| ())
+        }
+        async fn async_fsyncdir(&self, ctx: &Context, inode: u64, _datasync: bool, _handle: u64) -> io::Result<()> {
+            self.pause().await;
+            self.unit("a:fsyncdir", ctx, inode).map(|_| ())
+        }
+    }
+
+    // request kinds a<op> (backend futures always ready) and y<op> (every backend future Pending once)
+    pub fn do_async(vfs: &Vfs, sh: &Arc<Shared>, op: &str, ctx: &Context, ino: u64, name: &CStr, auid: u32, agid: u32, size: u32, offset: u64) -> Option<String> {
+        use fuse_backend_rs::api::filesystem::AsyncFileSystem as A;
+        let (yield_once, base) = match op.split_at(1) {
+            ("a", b) => (false, b),
+            ("y", b) => (true, b),
+            _ => return None,
+        };
+        sh.yield_once.store(yield_once, Ordering::SeqCst);
+        let unit = |r: io::Result<()>| fmt_io(r, |_| String::from("0"));
+        let out = match base {
+            "lookup" => fmt_io(block_on(A::async_lookup(vfs, ctx, ino.into(), name)), |e| fmt_entry(&e)),
+            "getattr" => fmt_io(block_on(A::async_getattr(vfs, ctx, ino.into(), None)), |(a, _)| fmt_attr(&a)),
+            "setattr" => {
+                let st = mk_stat(0, auid, agid, 0);
+                fmt_io(block_on(A::async_setattr(vfs, ctx, ino.into(), st, None, SetattrValid::from_bits_truncate(size))), |(a, _)| fmt_attr(&a))
+            }
+            "open" => fmt_io(block_on(A::async_open(vfs, ctx, ino.into(), 0, 0)), |(h, _)| format!("{}", h.unwrap_or(0))),
+            "create" => fmt_io(block_on(A::async_create(vfs, ctx, ino.into(), name, CreateIn::default())), |(e, _, _)| fmt_entry(&e)),
+            "read" => fmt_io(block_on(A::async_read(vfs, ctx, ino.into(), 1, &mut NullIo, size, offset, None, 0)), |n| format!("{}", n)),
+            "write" => fmt_io(block_on(A::async_write(vfs, ctx, ino.into(), 1, &mut NullIo, size, offset, None, false, 0, 0)), |n| format!("{}", n)),
+            "fsync" => unit(block_on(A::async_fsync(vfs, ctx, ino.into(), false, 1))),
+            "fallocate" => unit(block_on(A::async_fallocate(vfs, ctx, ino.into(), 1, 0, offset, 1))),
+            "fsyncdir" => unit(block_on(A::async_fsyncdir(vfs, ctx, ino.into(), false, 1))),
+            _ => return None,
+        };
+        sh.yield_once.store(false, Ordering::SeqCst);
+        Some(out)
+    }
+}
+
 // ------------------------------------------------------------------ driver
 fn name_bytes(tok: &str) -> CString {
     // "BADk" = a non-UTF-8 name; "EMPTY" = empty name; everything else literal
@@ -493,6 +651,10 @@ fn do_req(vfs: &Vfs, sh: &Arc<Shared>, t: &[&str]) -> String {
         }
     }
     let ctx = &ctx;
+    #[cfg(feature = "async-io")]
+    if let Some(out) = asyncfs::do_async(vfs, sh, op, ctx, ino, &name, auid, agid, size, offset) {
+        return out;
+    }
     let unit = |r: io::Result<()>| fmt_io(r, |_| String::from("0"));
     match op {
         "lookup" => fmt_io(vfs.lookup(ctx, ino.into(), &name), |e| fmt_entry(&e)),
